@@ -83,6 +83,10 @@ type AliasSpec struct {
 	//   positive | nxdomain-soa | nxdomain-bare | nodata-soa | nodata-bare | deep-positive
 	// The re-pointed generation publishes an A record for every target.
 	Targets []string `json:"targets"`
+	// TargetsFirst: every round asks the targets themselves before the aliases,
+	// so that an alias is first derived from a target entry that is already
+	// cached (otherwise the alias's own chase fetches the target).
+	TargetsFirst bool `json:"targets_first,omitempty"`
 }
 
 var aliasShapes = []string{"positive", "nxdomain-soa", "nxdomain-bare", "nodata-soa", "nodata-bare", "deep-positive"}
@@ -172,6 +176,7 @@ func genFocus(rng *rand.Rand, seed uint64, index int) *Scenario {
 	if depth > sc.Victim {
 		al.Targets = append(al.Targets, "deep-positive")
 	}
+	al.TargetsFirst = round%2 == 1
 	sc.Alias = al
 	return sc
 }
@@ -346,7 +351,7 @@ func (sc *Scenario) String() string {
 		fmt.Fprintf(&b, " focus=%s dnssec-off=%v soon=%v", sc.Focus, sc.DNSSECOff, sc.SoonAfter)
 	}
 	if sc.Alias != nil {
-		fmt.Fprintf(&b, " alias[signed=%v cname-ttl=%d targets=%s]", sc.Alias.Signed, sc.Alias.CNAMETTL, strings.Join(sc.Alias.Targets, ","))
+		fmt.Fprintf(&b, " alias[signed=%v cname-ttl=%d targets-first=%v targets=%s]", sc.Alias.Signed, sc.Alias.CNAMETTL, sc.Alias.TargetsFirst, strings.Join(sc.Alias.Targets, ","))
 	}
 	return b.String()
 }
